@@ -3,5 +3,6 @@ import NflowsModel.Properties.C01
 import NflowsModel.Properties.C01E
 import NflowsModel.Properties.C01J
 import NflowsModel.Properties.C01L
+import NflowsModel.Properties.C01N
 
 #audit_namespace Properties.C01
